@@ -517,7 +517,8 @@ func (st *State) rehavoc(v Val) Val {
 			if s, ok := st.ex.sortOfTerm(v.T); ok {
 				return Val{K: KTerm, T: st.ex.fresh("hv", s)}
 			}
-			return v
+			// never keep the pre-loop value of something the loop writes
+			panic(subsetErr{"cannot havoc an untyped ghost value at a loop cut: " + trunc(v.T, 60)})
 		}
 		return st.freshVal("hv", v.Typ)
 	case KStruct, KSlice, KTuple:
@@ -1622,7 +1623,10 @@ func (ex *Exec) rangeInstr(st *State, in *ssa.Range) Val {
 	ex.guardCheckMap(st, x, in, false)
 	ks := scalarSort(mt.Key())
 	c := ex.newCell("visited", nil)
-	st.cells[c.ID] = Val{K: KTerm, T: zeroTerm(arr(ks, "Bool"))}
+	// a declared symbol (not a literal), so that the loop cut can havoc it: see rehavoc
+	v0 := ex.fresh("visited", arr(ks, "Bool"))
+	st.assume(eq(v0, zeroTerm(arr(ks, "Bool"))))
+	st.cells[c.ID] = Val{K: KTerm, T: v0}
 	dom, ds := mapRegions(mt)
 	d0 := ex.fresh("dom0", arr(ks, "Bool"))
 	st.assume(eq(d0, ite(eq(x.T, "0"), zeroTerm(arr(ks, "Bool")), sel(st.region(dom, ds), x.T))))
